@@ -129,12 +129,12 @@ func rlRun(in []byte) (interface{}, error) {
 				}
 				if op.Parts > 1 && f.Chunked {
 					v := rdbref.Value{Kind: "hash"}
-					for i := 0; i < 3; i++ {
+					for i := 0; i < 2*op.Parts-1; i++ { // a record is cut after the pair that takes it above 16 MiB: two pairs per record, one in the last
 						val := bytes.Repeat([]byte{byte('a' + i)}, 9*1024*1024)
 						v.Hash = append(v.Hash, rdbref.HF{Field: []byte(fmt.Sprintf("f%d", i)), Value: val})
 					}
 					k.typ, k.body, _ = rdbref.EncodeValue(v, rdbref.Enc{Type: rdbref.THash})
-					k.parts = 2
+					k.parts = op.Parts
 				} else {
 					parts = 1
 					kind := []string{"string", "list", "set", "zset", "hash", "stream", "set:int", "list:int", "hash:int", "zset"}[rnd.Intn(10)]
